@@ -119,6 +119,10 @@ class RefDevice:
             else:
                 self._send(CMNINFO, bytes([len(self.chans), self.flags, self.rxpadding]))
             return
+        if act == "short":
+            # a frame of the expected kind whose payload is too short to unpack
+            self._send({"cmninfo": CMNINFO, "chinfo": CHINFO}.get(kind, ACK), b"\x01")
+            return
         nack = act[1] if isinstance(act, tuple) and act[0] == "nack" else None
         if kind == "cmninfo":
             self._send(CMNINFO, bytes([len(self.chans), self.flags, self.rxpadding]))
